@@ -4,7 +4,7 @@
 (* One trace file may hold several executions; each starts with Begin.      *)
 (* Events (recorded by the order-controlled scheduler or by the tracing     *)
 (* callback under dask's own schedulers):                                   *)
-(*   Begin{N,PSize,W,Fail}    Start{p}  Finish{p,ids}  Fail{p}  Errored     *)
+(*   Begin{N,Lens,W,Fail}     Start{p}  Finish{p,ids}  Fail{p}  Errored     *)
 (*   Return{ids}  Raised  Kernel{same}  End                                 *)
 (* ids are event ids obtained by matching each result, bit for bit, with    *)
 (* the one-at-a-time evaluation of the same events (0 = matches nothing).   *)
@@ -12,7 +12,7 @@
 EXTENDS TraceKit, Batch, SequencesExt
 
 NoConfigs == {}
-Idle == [N |-> 0, PSize |-> 1, W |-> 1, Fail |-> {}]
+Idle == [N |-> 0, Lens |-> <<>>, W |-> 1, Fail |-> {}]
 
 FailingPart == {p \in Parts(cfg) : FailGuard(p)}
 
@@ -43,7 +43,7 @@ Check(e) ==
 
 Effect(e) ==
     CASE e.kind = "Begin" ->
-            LET c == [N |-> e.N, PSize |-> e.PSize, W |-> e.W, Fail |-> Range(e.Fail)] IN
+            LET c == [N |-> e.N, Lens |-> e.Lens, W |-> e.W, Fail |-> Range(e.Fail)] IN
             /\ cfg' = c
             /\ st' = [p \in Parts(c) |-> "pending"]
             /\ res' = [p \in Parts(c) |-> <<>>]
